@@ -44,10 +44,11 @@ VARIABLES active,        \* the transport is up
           expected,      \* _expected_packet (set of types; {} = anything)
           strictPending, \* agreed_on_strict_kex /\ ~initial_kex_done
           chans, seen,   \* live channel ids (ChannelMap) / ids ever seen
+          inKex,         \* this end has sent a KEXINIT of a re-exchange; the peer's KEXINIT has not arrived yet
           seqIn,         \* sequence number of the next inbound packet
           cb,            \* ServerInterface callbacks invoked so far (names)
           last           \* what the last Recv did (observation record)
-vars == <<active, authed, authHandler, expected, strictPending, chans, seen, seqIn, cb, last>>
+vars == <<active, authed, authHandler, expected, strictPending, chans, seen, inKex, seqIn, cb, last>>
 
 NoReply == <<>>
 Obs(t, sq, kind, reply, ch) == [t |-> t, seq |-> sq, kind |-> kind, reply |-> reply, chan |-> ch,
@@ -56,7 +57,7 @@ Obs(t, sq, kind, reply, ch) == [t |-> t, seq |-> sq, kind |-> kind, reply |-> re
 Init == /\ active = TRUE /\ authed \in BOOLEAN /\ authHandler \in BOOLEAN
         /\ (authed => authHandler)                  \* authentication went through an auth handler
         /\ (Role = "server" => authHandler)         \* a server gets one with the first service request / at start
-        /\ expected = {} /\ strictPending = FALSE
+        /\ expected = {} /\ strictPending = FALSE /\ inKex \in BOOLEAN
         /\ chans \in SUBSET ChanIds /\ seen = chans
         /\ (~authed /\ Role = "server" => chans = {})
         /\ seqIn = 0 /\ cb = {}
@@ -106,20 +107,30 @@ RecvK(t, ch, k) ==
           /\ chans' = IF k = "handled" /\ t = CHANNEL_OPEN /\ newchan /\ ch \notin chans THEN chans \cup {ch}
                       ELSE IF k = "chan_handled" /\ t = 97 THEN chans \ {ch} ELSE chans
           /\ seen' = seen \cup chans'
+     \* the peer's KEXINIT ends the window in which only our own KEXINIT is out
+     /\ inKex' = IF t = KEXINIT THEN FALSE ELSE inKex
      /\ UNCHANGED <<authed, authHandler, strictPending>>
 
 Recv(t, ch) == RecvK(t, ch, Kind(t, ch))
 \* mutation used as a sensitivity run: the dispatch loop without _ensure_authed
+\* mutation used as a sensitivity run: the fallback branch stays silent while our own KEXINIT is outstanding
+RecvQuietInKex(t, ch) == RecvK(t, ch, IF inKex /\ Kind(t, ch) = "unhandled_answered" THEN "unhandled_silent" ELSE Kind(t, ch))
 KindNoGate(t, ch) == IF t \in TransportTable THEN "handled" ELSE Kind(t, ch)
 RecvNoGate(t, ch) == RecvK(t, ch, KindNoGate(t, ch))
 
 \* the peer authenticates successfully (server side: AuthHandler grants; client side: USERAUTH_SUCCESS)
 AuthSucceeds == /\ active /\ ~authed /\ authHandler /\ authed' = TRUE
-                /\ UNCHANGED <<active, authHandler, expected, strictPending, chans, seen, seqIn, cb, last>>
+                /\ UNCHANGED <<active, authHandler, expected, strictPending, chans, seen, inKex, seqIn, cb, last>>
 
-Next == AuthSucceeds \/ \E t \in Types, ch \in ChanIds : Recv(t, ch)
+\* this end starts a re-exchange (renegotiate_keys / rekey threshold): KEXINIT goes out, nothing is expected
+\* yet; traffic the peer sent before it sees our KEXINIT keeps arriving and is dispatched as usual (C11, C12)
+StartRekey == /\ active /\ ~inKex /\ expected = {} /\ inKex' = TRUE
+              /\ UNCHANGED <<active, authed, authHandler, expected, strictPending, chans, seen, seqIn, cb, last>>
+
+Next == AuthSucceeds \/ StartRekey \/ \E t \in Types, ch \in ChanIds : Recv(t, ch)
 Spec == Init /\ [][Next]_vars
-SpecNoGate == Init /\ [][AuthSucceeds \/ \E t \in Types, ch \in ChanIds : RecvNoGate(t, ch)]_vars
+SpecQuietInKex == Init /\ [][AuthSucceeds \/ StartRekey \/ \E t \in Types, ch \in ChanIds : RecvQuietInKex(t, ch)]_vars
+SpecNoGate == Init /\ [][AuthSucceeds \/ StartRekey \/ \E t \in Types, ch \in ChanIds : RecvNoGate(t, ch)]_vars
 \* every initial state x one inbound message (used with Types <- AllTypes)
 OneStepSpec == Init /\ [][last.kind = "none" /\ Next]_vars
 
@@ -127,7 +138,7 @@ OneStepSpec == Init /\ [][last.kind = "none" /\ Next]_vars
 \* a type with no handler in the current role/state (other than UNIMPLEMENTED itself) is answered with
 \* UNIMPLEMENTED carrying that packet's sequence number, and the session continues
 UnhandledAnswered ==
-  (last.kind \in {"unhandled_answered", "die_keyerror"})
+  (last.kind \in {"unhandled_answered", "die_keyerror"} \/ (last.kind = "unhandled_silent" /\ last.t # UNIMPL))
      => (last.reply = <<UNIMPL, last.seq>> /\ active)
 UnimplementedNeverAnswered == last.t = UNIMPL /\ last.kind # "none" => last.reply = NoReply
 C12 == UnhandledAnswered /\ UnimplementedNeverAnswered
